@@ -167,6 +167,87 @@ static Outcome EnumStreamLeg(RunCtx& ctx)
 	return out;
 }
 
+// The UTF transcoders with every kind of error mark the API accepts (none, empty, default, long) on code-unit sequences that are
+// dominated by ill-formed units: the output grows by one mark per bad unit, whatever the size the transcoder planned for.
+template <class TIn, class TOut>
+static bool TranscodeOne(const std::basic_string<TIn>& in, bool skip, int markKind, std::string& bad, size_t& outUnits)
+{
+	namespace U = BitSerializer::Convert::Utf;
+	static const TOut longMark[] = { '<', 'I', 'N', 'V', 'A', 'L', 'I', 'D', '-', 'S', 'E', 'Q', 'U', 'E', 'N', 'C', 'E', '>', 0 };
+	static const TOut emptyMark[] = { 0 };
+	std::basic_string<TOut> out;
+	CallResult r = Guarded([&]
+	{
+		const auto policy = skip ? U::UtfEncodingErrorPolicy::Skip : U::UtfEncodingErrorPolicy::ThrowError;
+		if (markKind == 0) (void)U::Transcode(in.cbegin(), in.cend(), out, policy);
+		else (void)U::Transcode(in.cbegin(), in.cend(), out, policy, markKind == 1 ? static_cast<const TOut*>(nullptr) : markKind == 2 ? emptyMark : longMark);
+	});
+	outUnits = out.size();
+	if (!r.isStd) { bad = "non-std exception from Utf::Transcode"; return false; }
+	return true;
+}
+
+static Outcome UtfMarkLeg(RunCtx& ctx)
+{
+	Source& s = ctx.src;
+	Outcome out;
+	out.cfgKey = "utf-mark";
+	ctx.count("leg.utf_error_mark");
+	const uint32_t width = s.draw(sim::L_DOC, 3);             // source code units: 0 bytes, 1 16-bit, 2 32-bit
+	const uint32_t n = GenLength(s, sim::L_DOC, 1200);
+	static const uint32_t dens[] = { 1, 2, 8 };
+	const uint32_t badOneIn = s.pick(sim::L_DOC, dens);       // 1: every unit is ill-formed
+	const bool skip = !s.chance(sim::L_CFG, 1, 4);
+	const int markKind = static_cast<int>(s.draw(sim::L_CFG, 4));   // 0 default, 1 nullptr, 2 empty, 3 long
+	std::string u8; std::u16string u16; std::u32string u32;
+	for (uint32_t i = 0; i < n; ++i)
+	{
+		const bool badUnit = s.chance(sim::L_DOC, 1, badOneIn);
+		if (width == 0) { static const unsigned char b[] = { 0xFF, 0x80, 0xC3, 0xE4, 0xF0, 0xC0 }; u8.push_back(badUnit ? static_cast<char>(s.pick(sim::L_DOC, b)) : static_cast<char>('a' + i % 26)); }
+		else if (width == 1) { static const char16_t b[] = { 0xDC00, 0xDFFF, 0xD800, 0xDBFF }; u16.push_back(badUnit ? s.pick(sim::L_DOC, b) : static_cast<char16_t>(u'a' + i % 26)); }
+		else { static const char32_t b[] = { 0x110000, 0xD800, 0xDFFF, 0xFFFFFFFF }; u32.push_back(badUnit ? s.pick(sim::L_DOC, b) : static_cast<char32_t>(U'a' + i % 26)); }
+	}
+	ctx.note("utf mark leg: source width=" + std::to_string(width) + " units=" + std::to_string(n) + " ill-formed 1 in " + std::to_string(badOneIn) + (skip ? " policy=skip" : " policy=throw") + " mark kind=" + std::to_string(markKind));
+	std::string bad;
+	size_t o1 = 0, o2 = 0;
+	bool ok = true;
+	int64_t peak = 0;
+	sim::steps_begin(3000ull * (n * 4 + 4096));
+	{
+		sim::AllocArm arm;
+		if (width == 0) ok = TranscodeOne<char, char16_t>(u8, skip, markKind, bad, o1) && TranscodeOne<char, char32_t>(u8, skip, markKind, bad, o2);
+		else if (width == 1) ok = TranscodeOne<char16_t, char>(u16, skip, markKind, bad, o1) && TranscodeOne<char16_t, char32_t>(u16, skip, markKind, bad, o2);
+		else ok = TranscodeOne<char32_t, char>(u32, skip, markKind, bad, o1) && TranscodeOne<char32_t, char16_t>(u32, skip, markKind, bad, o2);
+		peak = sim::alloc().peakBytes;
+	}
+	// the stream reader takes the same mark
+	if (ok && width == 1)
+	{
+		std::string bytes;
+		for (char16_t c : u16) { bytes.push_back(static_cast<char>(c & 0xFF)); bytes.push_back(static_cast<char>(c >> 8)); }
+		bytes.insert(0, "\xFF\xFE");
+		const InCfg c = DrawStreamCfg(s, sim::L_IO);
+		sim::SimIStreamBuf sb(bytes, c.seekable, c.delivery, {});
+		std::istream is(&sb);
+		static const char longMark[] = "<INVALID-SEQUENCE>";
+		CallResult r = Guarded([&]
+		{
+			namespace U = BitSerializer::Convert::Utf;
+			U::CEncodedStreamReader<char> reader(is, skip ? U::UtfEncodingErrorPolicy::Skip : U::UtfEncodingErrorPolicy::ThrowError, markKind == 3 ? longMark : markKind == 2 ? "" : markKind == 1 ? nullptr : U::Detail::GetDefaultErrorMark<char>());
+			std::string text;
+			for (int guard = 0; guard < 100000; ++guard) { if (reader.ReadChunk(text) != U::EncodedStreamReadResult::Success) break; }
+		});
+		if (!r.isStd) { ok = false; bad = "non-std exception from CEncodedStreamReader"; }
+	}
+	sim::steps_end();
+	if (!ok) return Violation("WRONG_EXCEPTION", "leg=utf_mark", bad);
+	if (peak > (1 << 20) + static_cast<int64_t>(n) * 200) return Violation("MEMORY", "leg=utf_mark what=peak", "transcoding " + std::to_string(n) + " units allocated " + std::to_string(peak) + " bytes");
+	out.nontrivial = n > 16 && markKind == 3;
+	if (out.nontrivial) sim::probe("long-error-mark-on-illformed-input");
+	(void)o1; (void)o2;
+	return out;
+}
+
 static std::string NestBomb(Source& s, int archive)
 {
 	static const uint32_t depths[] = { 50, 500, 3000, 20000, 60000 };
@@ -203,6 +284,7 @@ Outcome RunC02(RunCtx& ctx)
 {
 	Source& s = ctx.src;
 	if (s.chance(sim::L_CFG, 1, 32)) return EnumStreamLeg(ctx);
+	if (s.chance(sim::L_CFG, 1, 32)) return UtfMarkLeg(ctx);
 	const int archive = static_cast<int>(s.draw(sim::L_CFG, A_COUNT));
 	ArchiveOps& ops = GetOps(archive);
 	const std::string an = ArchiveName(archive);
